@@ -144,8 +144,24 @@ func TestC07(t *testing.T) {
 						fail("abandoned-survey-delivered", "a Recv that was waiting on ctx %d when a new survey replaced survey %08x returned %q", ci, oldID, r.b)
 					}
 				case <-time.After(time.Second):
-					fail("abandoned-recv-not-ended", "a Recv that was waiting on ctx %d when a new survey replaced survey %08x was still blocked 1s later", ci, oldID)
-					<-ch
+					// Either the Recv was never ended, or (scheduling) it only started after the new
+					// survey and is rightly waiting for responses to that one: a response to the new
+					// survey tells the two apart.
+					w2 := make([]byte, 4, 32)
+					binary.BigEndian.PutUint32(w2, c.cur)
+					w2 = append(w2, []byte("FOR-THE-NEW-SURVEY")...)
+					_ = pipes[pi].Inject(w2, 3*time.Second)
+					select {
+					case r := <-ch:
+						if r.err != nil || string(r.b) != "FOR-THE-NEW-SURVEY" {
+							fail("abandoned-recv-not-ended", "a Recv that was waiting on ctx %d when a new survey replaced survey %08x was still blocked 1s later and then returned (%q,%v)", ci, oldID, r.b, r.err)
+						} else {
+							stats.Class("recv_started_after_the_new_survey")
+						}
+					case <-time.After(2 * time.Second):
+						fail("abandoned-recv-not-ended", "a Recv that was waiting on ctx %d when a new survey replaced survey %08x was still blocked 1s later, and a response to the new survey did not reach it either", ci, oldID)
+						<-ch
+					}
 				}
 				stats.Class("survey_replaced_under_waiting_recv")
 				stale++
